@@ -72,9 +72,68 @@ pub fn naming(p: &Program, rng: &mut Rng, adversarial: bool) -> Naming {
             chosen.insert(rng.below(p.idents.len()));
         }
     }
+    // coordinated pair (a third of the adversarial namings): a global-scope entity G that the exporters will rename
+    // (reserved spelling, or member of an overload / template set) and locals / parameters spelled like the names the
+    // exporters generate for it (G_0, G_1, G_0_0) in a function that uses G - the situation in which a generated name can
+    // capture, or be captured by, a user name
+    let mut forced: Vec<Option<String>> = vec![None; p.idents.len()];
+    if adversarial && !p.idents.is_empty() && rng.chance(1, 3) {
+        let placeholder = |i: usize| format!("\u{1}{}\u{2}", i);
+        let globals: Vec<usize> = (0..p.idents.len()).filter(|i| matches!(p.idents[*i].kind, IdKind::Global | IdKind::Function | IdKind::Struct | IdKind::Enum)).collect();
+        if !globals.is_empty() {
+            let use_multi = !p.multi.is_empty() && rng.chance(1, 3);
+            let g = if use_multi { *rng.pick(&p.multi) } else { *rng.pick(&globals) };
+            let gname = if use_multi {
+                fresh_name(rng, g)
+            } else {
+                match rng.below(3) {
+                    0 => rng.pick(&hlsl).clone(),
+                    _ => rng.pick(&msl).clone(),
+                }
+            };
+            forced[g] = Some(gname.clone());
+            // locals and parameters declared shortly before a use of G
+            let gp = placeholder(g);
+            let mut near: Vec<usize> = Vec::new();
+            let mut any: Vec<usize> = Vec::new();
+            for (i, id) in p.idents.iter().enumerate() {
+                if !matches!(id.kind, IdKind::Local | IdKind::Param) {
+                    continue;
+                }
+                any.push(i);
+                if let Some(pos) = p.template.find(&placeholder(i)) {
+                    let end = (pos + 700).min(p.template.len());
+                    let mut end = end;
+                    while !p.template.is_char_boundary(end) {
+                        end -= 1;
+                    }
+                    if p.template[pos..end].contains(&gp) {
+                        near.push(i);
+                    }
+                }
+            }
+            let pool = if near.is_empty() { any } else { near };
+            if !pool.is_empty() {
+                for (k, form) in ["_0", "_1", "_0_0"].iter().enumerate() {
+                    if k > 0 && rng.chance(1, 2) {
+                        continue;
+                    }
+                    let l = *rng.pick(&pool);
+                    if forced[l].is_none() {
+                        forced[l] = Some(format!("{}{}", gname, form));
+                    }
+                }
+            }
+        }
+    }
     for (i, id) in p.idents.iter().enumerate() {
         let mut name = fresh_name(rng, i);
-        if chosen.contains(&i) {
+        if let Some(f) = &forced[i] {
+            if !used.contains(f) {
+                name = f.clone();
+                adv.push(i);
+            }
+        } else if chosen.contains(&i) {
             let candidate = match rng.below(6) {
                 0 | 1 => rng.pick(&hlsl).clone(),
                 2 | 3 => rng.pick(&msl).clone(),
@@ -289,8 +348,28 @@ pub fn examine(case: &Case, origin: &str, seed: u64, report: &mut Report) -> boo
                     witness(Json::obj().set("first", a.kind).set("second", b.kind).set("name", a.name.as_str()).set("scope", a.scope.as_str()).set("naming", which)),
                 );
             }
-            // kept verbatim: fresh / neutral unique names
             let names_now: Vec<&String> = if which == "s0" { p.idents.iter().map(|i| &i.name).collect() } else { case.s1.names.iter().collect() };
+            // a name generated for a global-scope entity must not be the spelling of a user's local or parameter: both would be
+            // visible in that function (source names are unique per entity in these programs, so any such pair is introduced)
+            {
+                let user_locals: HashSet<&str> = p.idents.iter().enumerate().filter(|(_, id)| matches!(id.kind, IdKind::Local | IdKind::Param)).map(|(i, _)| names_now[i].as_str()).collect();
+                let user_globals: HashSet<&str> = p.idents.iter().enumerate().filter(|(_, id)| !matches!(id.kind, IdKind::Local | IdKind::Param)).map(|(i, _)| names_now[i].as_str()).collect();
+                let mut seen: HashSet<(String, &'static str)> = HashSet::new();
+                for g in declared.iter().filter(|d| !d.scope.contains("()") && matches!(d.kind, "global" | "function" | "struct" | "enum" | "enum-value" | "typedef" | "cbuffer")) {
+                    if user_locals.contains(g.name.as_str()) && !user_globals.contains(g.name.as_str()) {
+                        if let Some(l) = declared.iter().find(|d| matches!(d.kind, "local" | "parameter") && d.name == g.name) {
+                            if seen.insert((g.name.clone(), g.kind)) {
+                                report.violation(
+                                    &format!("generated-name-equals-user-local:{}", g.kind),
+                                    &format!("the emitted {} gives the {} declared in {} the generated name `{}`, which is also the user's {} in {}", t.name(), g.kind, g.scope, g.name, l.kind, l.scope),
+                                    witness(Json::obj().set("name", g.name.as_str()).set("global_kind", g.kind).set("local_scope", l.scope.as_str()).set("naming", which)),
+                                );
+                            }
+                        }
+                    }
+                }
+            }
+            // kept verbatim: fresh / neutral unique names
             let declared_set: HashSet<&str> = declared.iter().map(|d| d.name.as_str()).collect();
             for (i, id) in p.idents.iter().enumerate() {
                 if skip_verbatim.contains(&i) || id.kind == IdKind::TemplateParam {
